@@ -485,6 +485,17 @@ impl<'tcx> Cx<'tcx> {
                     }
                 }
                 po.put("consts", J::Arr(cs));
+                // the promoted body itself (usually one aggregate / one reference): lets a rule see *which* value
+                // `&Enum::Variant` or `&(a, b)` stands for
+                let mut pst = Vec::new();
+                for data in pbody.basic_blocks.iter() {
+                    for st in data.statements.iter() {
+                        if let Some(j) = self.stmt(pbody, did, st) {
+                            pst.push(j);
+                        }
+                    }
+                }
+                po.put("stmts", J::Arr(pst));
                 proms.push(po);
             }
         }
